@@ -889,6 +889,30 @@ def rule_j(res: Results, idx: Index) -> None:
                             verdict = ("OK", "shape taken from the equation's output aval")
                             break
                     if verdict is None:
+                        # any other closed expression over the permutation and ONE shape: evaluate it on a 3-cycle
+                        for v in cands:
+                            allowed = {"tuple", "list", "sorted", "zip", "enumerate", "range", "len", "int", "reversed"}
+                            if any(isinstance(c_, ast.Call) and (call_name(c_) or "?") not in allowed for c_ in ast.walk(v)):
+                                continue      # calls into helpers are classified above (or stay unresolved)
+                            free = names_in(v) - allowed
+                            bound = {n_.id for c_ in ast.walk(v) if isinstance(c_, ast.comprehension) for n_ in ast.walk(c_.target) if isinstance(n_, ast.Name)}
+                            free -= bound
+                            pn = free & (perm_names | names_in(perm_e))
+                            sn = free - pn
+                            if len(pn) == 1 and len(sn) == 1:
+                                env = {next(iter(pn)): [1, 2, 0], next(iter(sn)): ("a", "b", "c")}
+                                try:
+                                    got = Evaluator(idx, {}).eval(v, env, fi, 0)
+                                    got = tuple(got)
+                                except Exception:
+                                    continue
+                                if got == ("b", "c", "a"):
+                                    verdict = ("OK", f"`{src(v, 60)}` evaluates to the gather on a 3-cycle: {got}")
+                                elif len(got) == 3:
+                                    verdict = ("VIOLATION", f"`{src(v, 70)}` with shape ('a','b','c') and perm [1,2,0] gives {got}, but Transpose(perm=[1,2,0]) yields ('b','c','a'): the stamped shape is the INVERSE "
+                                                            "permutation of the operand's shape — right for swaps, wrong for every rotation (a trailing batch axis moved to the front)")
+                                break
+                    if verdict is None:
                         verdict = ("UNRESOLVED", f"shape expression `{src(s_e, 60)}` not classified")
                     res.add("R-C08j", verdict[0], site, key, verdict[1], fi.qualname)
     res.analysed["transpose_stamps"] = n
